@@ -22,6 +22,11 @@ theorem strictAsc_namesByExpr (a : Auth) (shs : List Shard) (c : Cond) : StrictA
     split
     · exact strictAsc_filter _ _ (strictAsc_measNames shs)
     · exact strictAsc_filter _ _ (strictAsc_measNames shs)
+  | re key neg vals =>
+    simp only [namesByExpr]
+    split
+    · exact strictAsc_filter _ _ (strictAsc_measNames shs)
+    · exact strictAsc_filter _ _ (strictAsc_measNames shs)
   | and l r ihl _ => exact strictAsc_filter _ _ ihl
   | or l r _ _ => exact strictAsc_sortDedup _
 
@@ -115,12 +120,81 @@ theorem holdsOf_nameOnly {c : Cond} (hc : nameOnly c = true) (name : Bytes) (t1 
   | cmp k neq v =>
     simp only [nameOnly, decide_eq_true_eq] at hc
     simp [holdsOf, hc]
+  | re k neg vals =>
+    simp only [nameOnly, decide_eq_true_eq] at hc
+    simp [holdsOf, hc]
   | and l r ihl ihr =>
     simp only [nameOnly, Bool.and_eq_true] at hc
     simp [holdsOf, ihl hc.1, ihr hc.2]
   | or l r ihl ihr =>
     simp only [nameOnly, Bool.and_eq_true] at hc
     simp [holdsOf, ihl hc.1, ihr hc.2]
+
+/-- the `_name` filter: names whose comparison holds and that have an authorized live series -/
+theorem mem_namesByNameFilter (a : Auth) (shs : List Shard) (neq : Bool) (mtch : Bytes → Bool) (m : Bytes) :
+    m ∈ namesByNameFilter a shs neq mtch ↔ LiveAuth a shs m (fun s => (mtch s.name != neq) = true) := by
+  simp only [namesByNameFilter, List.mem_filter, Bool.and_eq_true]
+  constructor
+  · rintro ⟨hm, hcmp, hauth⟩
+    obtain ⟨sh, hsh, s, hs, hn, hal, _⟩ := (measAuthorized_iff a shs m hm).1 hauth
+    exact ⟨sh, hsh, s, hs, hn, hal, by simp only; rw [hn]; exact hcmp⟩
+  · rintro ⟨sh, hsh, s, hs, hn, hal, hh⟩
+    have hm : m ∈ measNames shs := mem_measNames.2 ⟨sh, hsh, s, hs, hn⟩
+    exact ⟨hm, by have hh' : (mtch s.name != neq) = true := hh; rw [← hn]; exact hh', (measAuthorized_iff a shs m hm).2 ⟨sh, hsh, s, hs, hn, hal, trivial⟩⟩
+
+/-- the tag filter for a non-negated operator whose comparison rejects the empty value: exactly
+    the names with a live authorized series whose value of the key is accepted — however many
+    values match and whichever of them the hidden series use -/
+theorem mem_namesByTagFilter (a : Auth) (shs : List Shard) (hidx : IndexExact shs) (htags : TagsFn shs)
+    (key : Bytes) (mtch : Bytes → Bool) (hempty : mtch [] = false) (m : Bytes) :
+    m ∈ namesByTagFilter a shs false key mtch ↔
+      LiveAuth a shs m (fun s => mtch ((tagGet s.tags key).getD []) = true) := by
+  have hval : ∀ v, v ∈ idxTagValues shs m key ↔
+      ∃ sh ∈ shs, ∃ s ∈ sh.series, s.name = m ∧ tagGet s.tags key = some v := by
+    intro v
+    rw [mem_idxTagValues]
+    constructor
+    · rintro ⟨sh, hsh, he⟩
+      obtain ⟨s, hs, hn, hkv⟩ := (hidx sh hsh m key v).1 he
+      exact ⟨sh, hsh, s, hs, hn, (htags sh hsh s hs key v).1 hkv⟩
+    · rintro ⟨sh, hsh, s, hs, hn, hg⟩
+      exact ⟨sh, hsh, (hidx sh hsh m key v).2 ⟨s, hs, hn, (htags sh hsh s hs key v).2 hg⟩⟩
+  simp only [namesByTagFilter, List.mem_filter]
+  constructor
+  · rintro ⟨hm, hbody⟩
+    by_cases hkey : (idxTagKeys shs m).contains key = true
+    · simp only [hkey, Bool.not_true, Bool.false_eq_true, if_false, Bool.false_and, Bool.not_false,
+        Bool.and_eq_true, beq_iff_eq, Bool.not_eq_true', List.isEmpty_eq_false_iff] at hbody
+      obtain ⟨hne, hauth⟩ := hbody
+      simp only [Bool.or_eq_true, List.any_eq_true, Bool.and_eq_true, decide_eq_true_eq, mem_liveSeries,
+        List.mem_filter] at hauth
+      rcases hauth with ho | ⟨v, ⟨hv, hmv⟩, s, ⟨sh, hsh, hs, hn⟩, hg, hal⟩
+      · obtain ⟨v, hv⟩ := List.exists_mem_of_ne_nil _ hne
+        obtain ⟨hv1, hmv⟩ := List.mem_filter.1 hv
+        obtain ⟨sh, hsh, s, hs, hn, hg⟩ := (hval v).1 hv1
+        exact ⟨sh, hsh, s, hs, hn, allows_of_open ho _ _, by simp only; rw [hg]; exact hmv⟩
+      · exact ⟨sh, hsh, s, hs, hn, hal, by simp only; rw [hg]; exact hmv⟩
+    · exfalso; apply hkey
+      simp only [hkey] at hbody
+      simp at hbody
+  · rintro ⟨sh, hsh, s, hs, hn, hal, hh⟩
+    have hm : m ∈ measNames shs := mem_measNames.2 ⟨sh, hsh, s, hs, hn⟩
+    obtain ⟨v, hg⟩ : ∃ v, tagGet s.tags key = some v := by
+      cases hgt : tagGet s.tags key with
+      | none => rw [hgt] at hh; simp only [Option.getD_none] at hh; rw [hempty] at hh; cases hh
+      | some v => exact ⟨v, rfl⟩
+    have hmv : mtch v = true := by rw [hg] at hh; exact hh
+    have hv : v ∈ idxTagValues shs m key := (hval v).2 ⟨sh, hsh, s, hs, hn, hg⟩
+    have hkey : (idxTagKeys shs m).contains key = true := by
+      simp only [List.contains_eq_mem, decide_eq_true_eq, mem_idxTagKeys]
+      exact ⟨sh, hsh, v, (hidx sh hsh m key v).2 ⟨s, hs, hn, (htags sh hsh s hs key v).2 hg⟩⟩
+    have hvm : v ∈ (idxTagValues shs m key).filter mtch := List.mem_filter.2 ⟨hv, hmv⟩
+    refine ⟨hm, ?_⟩
+    simp only [hkey, Bool.not_true, Bool.false_eq_true, if_false, Bool.false_and, Bool.not_false,
+      Bool.and_eq_true, beq_iff_eq, Bool.not_eq_true', List.isEmpty_eq_false_iff]
+    refine ⟨List.ne_nil_of_mem hvm, ?_⟩
+    simp only [Bool.or_eq_true, List.any_eq_true, Bool.and_eq_true, decide_eq_true_eq, mem_liveSeries]
+    exact Or.inr ⟨v, hvm, s, ⟨sh, hsh, hs, hn⟩, hg, hal⟩
 
 /-- **MeasurementNames with a condition (partial: `condOK`, exact index)**: exactly the names
     with a live authorized series of which the condition holds. -/
@@ -131,66 +205,39 @@ theorem mem_namesByExpr (a : Auth) (shs : List Shard) (hidx : IndexExact shs) (h
   | cmp key neq val =>
     simp only [namesByExpr]
     by_cases hk : key = nameKey
-    · -- `_name` comparison
-      simp only [hk, if_true, namesByNameFilter, List.mem_filter, Bool.and_eq_true]
+    · simp only [hk, if_true]
+      rw [mem_namesByNameFilter]
+      unfold LiveAuth
+      simp only [holdsOf, if_true]
       constructor
-      · rintro ⟨hm, hcmp, hauth⟩
-        obtain ⟨sh, hsh, s, hs, hn, hal, _⟩ := (measAuthorized_iff a shs m hm).1 hauth
-        refine ⟨sh, hsh, s, hs, hn, hal, ?_⟩
-        simp only [holdsOf, if_true, hn]
-        cases neq <;> simpa using hcmp
       · rintro ⟨sh, hsh, s, hs, hn, hal, hh⟩
-        have hm : m ∈ measNames shs := mem_measNames.2 ⟨sh, hsh, s, hs, hn⟩
-        refine ⟨hm, ?_, (measAuthorized_iff a shs m hm).2 ⟨sh, hsh, s, hs, hn, hal, trivial⟩⟩
-        simp only [holdsOf, if_true, hn] at hh
+        refine ⟨sh, hsh, s, hs, hn, hal, ?_⟩
         cases neq <;> simpa using hh
-    · -- `tag = 'val'`, val non-empty
-      simp only [condOK, hk, decide_false, Bool.false_or, Bool.and_eq_true, Bool.not_eq_true',
+      · rintro ⟨sh, hsh, s, hs, hn, hal, hh⟩
+        refine ⟨sh, hsh, s, hs, hn, hal, ?_⟩
+        cases neq <;> simpa using hh
+    · simp only [condOK, hk, decide_false, Bool.false_or, Bool.and_eq_true, Bool.not_eq_true',
         decide_eq_true_eq] at hc
       obtain ⟨hneq, hval⟩ := hc
       subst hneq
-      simp only [hk, if_false, namesByTagFilter, List.mem_filter]
-      have hmatch : ∀ m, (idxTagValues shs m key).contains val = true ↔
-          ∃ sh ∈ shs, ∃ s ∈ sh.series, s.name = m ∧ tagGet s.tags key = some val := by
-        intro m
-        simp only [List.contains_eq_mem, decide_eq_true_eq, mem_idxTagValues]
-        constructor
-        · rintro ⟨sh, hsh, he⟩
-          obtain ⟨s, hs, hn, hkv⟩ := (hidx sh hsh m key val).1 he
-          exact ⟨sh, hsh, s, hs, hn, (htags sh hsh s hs key val).1 hkv⟩
-        · rintro ⟨sh, hsh, s, hs, hn, hg⟩
-          exact ⟨sh, hsh, (hidx sh hsh m key val).2 ⟨s, hs, hn, (htags sh hsh s hs key val).2 hg⟩⟩
-      constructor
-      · rintro ⟨hm, hbody⟩
-        by_cases hkey : (idxTagKeys shs m).contains key = true
-        · simp only [hkey, Bool.not_true, Bool.false_eq_true, if_false, Bool.not_false, Bool.and_true,
-            Bool.and_eq_true, beq_iff_eq, Bool.false_and] at hbody
-          obtain ⟨htm, hauth⟩ := hbody
-          simp only [htm, Bool.true_and, Bool.or_eq_true, List.any_eq_true, Bool.and_eq_true,
-            decide_eq_true_eq, mem_liveSeries] at hauth
-          rcases hauth with ho | ⟨s, ⟨sh, hsh, hs, hn⟩, hg, hal⟩
-          · obtain ⟨sh, hsh, s, hs, hn, hg⟩ := (hmatch m).1 htm
-            exact ⟨sh, hsh, s, hs, hn, allows_of_open ho _ _, by simp [holdsOf, hk, hg]⟩
-          · exact ⟨sh, hsh, s, hs, hn, hal, by simp [holdsOf, hk, hg]⟩
-        · exfalso; apply hkey
-          simp only [hkey] at hbody
-          simpa using hbody
-      · rintro ⟨sh, hsh, s, hs, hn, hal, hh⟩
-        have hm : m ∈ measNames shs := mem_measNames.2 ⟨sh, hsh, s, hs, hn⟩
-        have hg : tagGet s.tags key = some val := by
-          simp only [holdsOf, hk, if_false, Bool.false_eq_true, decide_eq_true_eq] at hh
-          cases hgt : tagGet s.tags key with
-          | none => rw [hgt] at hh; simp at hh; exact absurd hh.symm (fun e => hval e.symm)
-          | some x => rw [hgt] at hh; simp at hh; rw [hh]
-        have htm : (idxTagValues shs m key).contains val = true := (hmatch m).2 ⟨sh, hsh, s, hs, hn, hg⟩
-        have hkey : (idxTagKeys shs m).contains key = true := by
-          simp only [List.contains_eq_mem, decide_eq_true_eq, mem_idxTagKeys]
-          exact ⟨sh, hsh, val, (hidx sh hsh m key val).2 ⟨s, hs, hn, (htags sh hsh s hs key val).2 hg⟩⟩
-        refine ⟨hm, ?_⟩
-        simp only [hkey, Bool.not_true, Bool.false_eq_true, if_false, htm, Bool.true_and, Bool.not_false,
-          Bool.and_true, Bool.and_eq_true, beq_iff_eq, Bool.false_and, true_and, Bool.or_eq_true,
-          List.any_eq_true, decide_eq_true_eq, mem_liveSeries]
-        exact Or.inr ⟨s, ⟨sh, hsh, hs, hn⟩, hg, hal⟩
+      simp only [hk, if_false]
+      rw [mem_namesByTagFilter a shs hidx htags key _ (by simp only [decide_eq_false_iff_not]; exact fun e => hval e.symm)]
+      unfold LiveAuth
+      simp only [holdsOf, hk, if_false, Bool.false_eq_true, decide_eq_true_eq]
+  | re key neg vals =>
+    simp only [namesByExpr]
+    by_cases hk : key = nameKey
+    · simp only [hk, if_true]
+      rw [mem_namesByNameFilter]
+      unfold LiveAuth
+      simp only [holdsOf, if_true]
+    · simp only [condOK, hk, decide_false, Bool.false_or, Bool.and_eq_true, Bool.not_eq_true'] at hc
+      obtain ⟨hneg, hval⟩ := hc
+      subst hneg
+      simp only [hk, if_false]
+      rw [mem_namesByTagFilter a shs hidx htags key _ hval]
+      unfold LiveAuth
+      simp only [holdsOf, hk, if_false, Bool.bne_false]
   | and l r ihl ihr =>
     simp only [condOK, Bool.and_eq_true, Bool.or_eq_true] at hc
     obtain ⟨⟨hl, hr⟩, hno⟩ := hc
